@@ -373,7 +373,7 @@ impl Run {
         } else {
             let c: ConfigResponse = w.smart(&self.ics, &QueryMsg::Config {}).unwrap();
             let a: AllowedResponse = w.smart(&self.ics, &QueryMsg::Allowed { contract: self.tok.to_string() }).unwrap();
-            (gas_down(c.default_gas_limit), w.name_of(&c.gov_contract), a.is_allowed, gas_down(a.gas_limit))
+            (gas_down(c.default_gas_limit), if c.gov_contract.is_empty() { "none".to_string() } else { w.name_of(&c.gov_contract) }, a.is_allowed, gas_down(a.gas_limit))
         };
         let inflight: Vec<Value> = self.pkts.iter().enumerate().filter(|(_, p)| !p.done).map(|(i, _)| json!(i + 1)).collect();
         let lc: Result<cw20_ics20::msg::ListChannelsResponse, _> = w.smart(&self.ics, &QueryMsg::ListChannels {});
@@ -533,7 +533,9 @@ impl Run {
             }
             "update_admin" => {
                 let sender = self.w.addr(&by);
-                let m = ExecuteMsg::UpdateAdmin { admin: self.w.addr(&s(&args, "new")).to_string() };
+                // "none": the empty string (there is no way to step down: it must be refused)
+                let new = s(&args, "new");
+                let m = ExecuteMsg::UpdateAdmin { admin: if new == "none" { String::new() } else { self.w.addr(&new).to_string() } };
                 call(&mut self.w, |w| w.app.execute_contract(sender, ics.clone(), &m, &[]))
             }
             "migrate" => {
@@ -697,7 +699,7 @@ pub fn random_run(rng: &mut Rng, run_no: u64, len: usize, out: &mut Out) {
             }
             73..=80 => json!({"act":"tokfail","by":"env","args":{"on":rng.chance(1,2)}}),
             81..=88 => json!({"act":"allow","by":rng.pick(&["gov","gov","gov2","u1"]),"args":{"gas":*rng.pick(&[-1i64,100,200,800,1000,GAS_TOP])}}),
-            89..=92 => json!({"act":"update_admin","by":rng.pick(&["gov","gov2","u1"]),"args":{"new":rng.pick(&["gov","gov2"])}}),
+            89..=92 => json!({"act":"update_admin","by":rng.pick(&["gov","gov2","u1"]),"args":{"new":rng.pick(&["gov","gov2","gov2","none"])}}),
             93..=94 => json!({"act":"migrate","by":"creator","args":{"gas":*rng.pick(&[-1i64,300,50])}}),
             96 => json!({"act":"donate","by":rng.pick(&USERS),"args":{"denom":d,"amt":rng.range(0,4)}}),
             95 => {
